@@ -448,7 +448,7 @@ pub fn run(ctx: &mut Ctx) {
     ctx.extra.insert("exhaustive_words_with_kick".into(), json!(space.len()));
     ctx.enumerate("exhaustive_1ring", space, |ctx, h| run_hist(ctx, h));
 
-    let cases = ctx.tier.pick(1200u32, 60_000u32);
+    let cases = ctx.tier.pick(1200u32, 300_000u32);
     let strat = (any::<bool>(), proptest::collection::vec(op_strategy(2), 1..=20)).prop_map(|(rwlock, ops)| Hist { rwlock, nrings: 2, ops });
     ctx.prop_check("random_2rings", cases, strat, |ctx, h| run_hist(ctx, h));
 
